@@ -244,8 +244,33 @@ def from_vector_case(ctx, idx, rng):
     while d ** L > 2048:
         L -= 1
     kind = str(rng.choice(['complex', 'real', 'product', 'sparse', 'int']))
+    if idx % 8 == 5:
+        # long chains: the first matricizations are extremely wide (2 x 8192, 3 x 6561, 6 x 7776), and data that are NEARLY of low rank across
+        # the cuts (singular-value ratios 1e-8 .. 1e-13): at zero tolerance every one of these directions has to survive
+        d = int(rng.choice([2, 3, 4, 5, 6]))
+        L = int(rng.integers({2: 10, 3: 8, 4: 6, 5: 5, 6: 5}[d], {2: 14, 3: 9, 4: 7, 5: 6, 6: 5}[d] + 1))
+        kind = str(rng.choice(['near-product', 'near-product', 'near-low-rank', 'complex', 'product']))
     n = d ** L
-    if kind == 'complex':
+    if kind in ('near-product', 'near-low-rank'):
+        v = np.ones(1)
+        for _ in range(L):
+            v = np.kron(v, rng.normal(size=d) + 1j * rng.normal(size=d))
+        if kind == 'near-low-rank':
+            w = np.ones(1)
+            for _ in range(L):
+                w = np.kron(w, rng.normal(size=d) + 1j * rng.normal(size=d))
+            v = v + w * float(rng.choice([1.0, 1e-4]))
+        g = rng.normal(size=n) + 1j * rng.normal(size=n)
+        v = v / np.linalg.norm(v) + float(rng.choice([1e-8, 1e-9, 1e-10, 1e-12])) * g / np.linalg.norm(g)
+        if idx % 16 == 5:
+            v = v.real.copy()
+        kind_gen = None
+    else:
+        kind_gen = kind
+    kind, kind_lbl = kind_gen, kind
+    if kind is None:
+        pass
+    elif kind == 'complex':
         v = rng.normal(size=n) + 1j * rng.normal(size=n)
     elif kind == 'real':
         v = rng.normal(size=n)
@@ -263,7 +288,7 @@ def from_vector_case(ctx, idx, rng):
         if not v.any():
             v[0] = 1
     v = v * float(rng.choice([1, 1e-6, 1e6]))
-    ctx.case(('from_vector', f'd{d}', f'L{min(L, 4)}', kind), sample={'d': d, 'L': L, 'v': v[:32]})
+    ctx.case(('from_vector', f'd{d}', f'L{min(L, 4)}' if L < 5 else ('L5-7' if L < 8 else 'L>=8'), kind_lbl), sample={'d': d, 'L': L, 'v': v[:32]})
     detail = {'d': d, 'L': L, 'v': v}
     v0 = np.array(v, copy=True)
     with monitor.write_protected(v):
